@@ -253,6 +253,63 @@ def run_desc(ctx, exe, tier, seed):
     return issues, stats
 
 
+FAULT_SCRIPTS_QUICK = [0, 1, 2, 101]
+FAULT_SCRIPTS_THOROUGH = [0, 1, 2] + list(range(101, 131))
+
+
+def run_fault(ctx, exe, tier, seed):
+    """C12: for each scripted history fail every in-library allocation
+    k = 1..K once (exhaustive over k); the trace spec's fault branch demands
+    ENOMEM, a usable tree and a retry that behaves as if nothing happened."""
+    issues = []
+    stats = {"events": 0, "episodes": 0, "crashes": 0, "tlc_generated": 0,
+             "scripts": {}, "fault_points": 0}
+    scripts = FAULT_SCRIPTS_QUICK if tier == "quick" else FAULT_SCRIPTS_THOROUGH
+    traces = []
+    for sc in scripts:
+        rc, out, err = vlib.sh([exe, "faultcount", str(sc)], env=vlib.SAN_ENV)
+        if rc != 0:
+            raise vlib.MachineryError("faultcount %s failed: %s" % (sc, err[-2000:]))
+        K = int(out.strip().splitlines()[-1])
+        stats["scripts"]["propdoc:%d" % sc] = K
+        stats["fault_points"] += K
+
+        def resume(tp, sc=sc):
+            cid = common.last_case(tp)
+            if cid is None:
+                return None, None
+            return cid, int(cid.split(":")[2]) + 1
+
+        paths, crashes = common.run_sharded(
+            exe, lambda a, b, sc=sc: ["fault", str(sc), str(a + 1), str(b + 1)],
+            K, ctx.work, "fault-%d" % sc,
+            lambda cid: int(cid.split(":")[2]) - 1,
+            nshards=min(vlib.NCPU, max(1, K // 40)))
+        for c in crashes:
+            c["fault"] = True
+        its = issues_from_crashes(ctx, crashes, "fault script %d" % sc)
+        for it in its:
+            it.props = {"C12"}
+            it.signature = it.signature.replace("PropDoc:crash", "PropDoc:fault-crash")
+        issues += its
+        stats["crashes"] += len(crashes)
+        for p in paths:
+            common.strip_crashed_episodes(p)
+        traces += paths
+    tr = common.concat(traces, os.path.join(ctx.work, "fault-all.ndjson"))
+    res = vlib.validate_sharded("PropDocTrace.tla", "PropDocTrace.cfg", tr,
+                                ctx.work, shards=vlib.NCPU)
+    ctx.machinery_errors += res["errors"]
+    for it in issues_from_validation(ctx, res, "fault injection"):
+        it.props = {"C12"}
+        it.signature = it.signature.replace("PropDoc:", "PropDoc:fault:", 1)
+        issues.append(it)
+    stats["events"] += res["events"]
+    stats["episodes"] += res["episodes"]
+    stats["tlc_generated"] += res["generated"]
+    return issues, stats
+
+
 def replay(ctx, exe, path):
     with open(path) as fp:
         first = fp.readline()
@@ -266,7 +323,9 @@ def replay(ctx, exe, path):
     else:
         cid = m.group(1)
     parts = cid.split(":")
-    if parts[0] in ("desc", "descr"):
+    if parts[0] == "fault":
+        args = ["fault", parts[1], parts[2], str(int(parts[2]) + 1)]
+    elif parts[0] in ("desc", "descr"):
         args = [parts[0], parts[1], parts[2], parts[3], str(int(parts[3]) + 1)]
     elif parts[0] == "exh":
         args = ["exh", parts[1], parts[2], str(int(parts[2]) + 1)]
